@@ -121,10 +121,10 @@ impl<'a> Summariser<'a> {
     }
   }
 
-  /// (cls id strip_undef?) ; cls: 0 none 1 any 2 other
+  /// (cls id strip_undef? needs_paren_in_union) ; cls: 0 none 1 any 2 other
   fn tyinfo(&mut self, t: Option<&TsType>) -> Sx {
     match t {
-      None => l(vec![a(0), a(0), l(vec![])]),
+      None => l(vec![a(0), a(0), l(vec![]), b(false)]),
       Some(t) => {
         let cls = match t {
           TsType::TsKeywordType(k) if k.kind == TsKeywordTypeKind::TsAnyKeyword => 1,
@@ -151,7 +151,8 @@ impl<'a> Summariser<'a> {
           }
           _ => None,
         };
-        l(vec![a(cls), a(id), Sx::opt(strip.map(a))])
+        let paren = matches!(t, TsType::TsFnOrConstructorType(_) | TsType::TsConditionalType(_) | TsType::TsInferType(_));
+        l(vec![a(cls), a(id), Sx::opt(strip.map(a)), b(paren)])
       }
     }
   }
